@@ -129,12 +129,37 @@ func (b *Builder) Addr(v ssa.Value) *Term {
 
 // indexTerm: an element of a reconstructed element list at a constant index is that element.
 func indexTerm(base, idx *Term) *Term {
+	if base.Op == OBuiltin && base.Str == "append" && isIntConst(idx) {
+		// an element of append(...append(list(...), list(...))..., list(...)), spelled out on the path
+		if els, ok := spelledOut(base); ok {
+			base = &Term{Op: "list", Args: els}
+		}
+	}
 	if base.Op == "list" && isIntConst(idx) {
 		if i, ok := constant.Int64Val(idx.C); ok && i >= 0 && int(i) < len(base.Args) {
 			return base.Args[i]
 		}
 	}
 	return &Term{Op: OIndex, Args: []*Term{base, idx}}
+}
+
+// spelledOut: the elements of a slice term whose construction is spelled out (see ConstLen).
+func spelledOut(t *Term) ([]*Term, bool) {
+	switch {
+	case t.Op == "list":
+		return t.Args, true
+	case t.Op == OConst && t.C == nil && t.Typ != nil:
+		if _, ok := t.Typ.Underlying().(*types.Slice); ok {
+			return nil, true
+		}
+	case t.Op == OBuiltin && t.Str == "append" && len(t.Args) == 2 && t.Args[1].Op == "list":
+		if els, ok := spelledOut(t.Args[0]); ok {
+			return append(append([]*Term{}, els...), t.Args[1].Args...), true
+		}
+	case t.Op == OBuiltin && t.Str == "append" && len(t.Args) == 1:
+		return spelledOut(t.Args[0])
+	}
+	return nil, false
 }
 
 func (b *Builder) term(v ssa.Value) *Term {
